@@ -174,10 +174,23 @@ func c02Check(c c02Case) *Violation {
 	if len(out.Features()) != len(c.Host)+len(c.Guest) {
 		return viol("count", "%s: result has %d features, want %d host + %d guest", name, len(out.Features()), len(c.Host), len(c.Guest))
 	}
+	// a table may list a feature twice, verbatim (same key, qualifiers and location): both entries stay
+	mult := map[string]int{}
+	for _, f := range c.Host {
+		mult[f.label()]++
+	}
+	for _, f := range c.Guest {
+		mult[f.label()]++
+	}
 	for _, f := range c.Host {
 		gg := got[f.label()]
-		if len(gg) != 1 {
-			return viol("presence", "%s: host feature %s present %d times", name, f.label(), len(gg))
+		if len(gg) != mult[f.label()] {
+			return viol("presence", "%s: host feature %s present %d times, want %d", name, f.label(), len(gg), mult[f.label()])
+		}
+		for _, g := range gg[1:] {
+			if g.Key != gg[0].Key || g.Loc.String() != gg[0].Loc.String() || fmt.Sprint(g.Props) != fmt.Sprint(gg[0].Props) {
+				return viol("presence", "%s: the copies of host feature %s came out different: %v and %v", name, f.label(), gg[0], g)
+			}
 		}
 		exp := insertLoc(f.Loc, i, n)
 		if c.Embed {
@@ -203,8 +216,13 @@ func c02Check(c c02Case) *Violation {
 	}
 	for _, f := range c.Guest {
 		gg := got[f.label()]
-		if len(gg) != 1 {
-			return viol("presence", "%s: guest feature %s present %d times", name, f.label(), len(gg))
+		if len(gg) != mult[f.label()] {
+			return viol("presence", "%s: guest feature %s present %d times, want %d", name, f.label(), len(gg), mult[f.label()])
+		}
+		for _, g := range gg[1:] {
+			if g.Key != gg[0].Key || g.Loc.String() != gg[0].Loc.String() || fmt.Sprint(g.Props) != fmt.Sprint(gg[0].Props) {
+				return viol("presence", "%s: the copies of guest feature %s came out different: %v and %v", name, f.label(), gg[0], g)
+			}
 		}
 		siteCheck = nil
 		if !hasResidue(den(f.Loc)) {
@@ -286,8 +304,31 @@ func c02Gen(t *rapid.T) c02Case {
 	gc := locCfg{L: n, Hot: []int{0, n}, MaxDepth: 2, MaxParts: 3, Ambig: true, Sites: true}
 	c.Host = genFeats(t, hc, drawCount(t, 0, 4, 9, "nhost"), "h", true)
 	c.Guest = genFeats(t, gc, rapid.IntRange(0, 3).Draw(t, "nguest"), "g", false)
+	if genTwins {
+		// verbatim copies of features, next to the original or elsewhere in the table
+		twin := func(ff []Feat, name string) []Feat {
+			if len(ff) == 0 {
+				return ff
+			}
+			k := rapid.IntRange(0, len(ff)-1).Draw(t, name+"-twin")
+			at := rapid.SampledFrom([]int{k + 1, k + 1, len(ff), 0}).Draw(t, name+"-at")
+			out := append([]Feat{}, ff[:at]...)
+			out = append(out, ff[k])
+			return append(out, ff[at:]...)
+		}
+		if rapid.Bool().Draw(t, "twinhost") {
+			c.Host = twin(c.Host, "h")
+		} else {
+			c.Guest = twin(c.Guest, "g")
+		}
+		if rapid.IntRange(0, 3).Draw(t, "twinboth") == 0 {
+			c.Host, c.Guest = twin(c.Host, "h2"), twin(c.Guest, "g2")
+		}
+	}
 	return c
 }
+
+var genTwins bool // c02Gen also lists some features twice
 
 // c02Templates enumerates all single-leaf and two-part locations over a sequence of length L.
 func smallLocs(L int, sites, ambig bool) []Loc {
@@ -322,6 +363,12 @@ func TestC02(t *testing.T) {
 		return
 	}
 	rapidLargePart(t, c02Prop, st, pick(1500, 20000), c02Gen)
+	if t.Failed() {
+		return
+	}
+	genTwins = true
+	rapidPart(t, c02Prop, st, "rapid-twins", pick(4000, 40000), c02Gen)
+	genTwins = false
 	if t.Failed() {
 		return
 	}
